@@ -530,3 +530,271 @@ def run(ctx):  # noqa: F811
     r03_6(ctx)
     r03_7(ctx)
     r03_8(ctx)
+
+
+# ---------------------------------------------------------------------------------------------------------------- R03.9
+def r03_9(ctx, rid="R03.9"):
+    """requesting the metric must not change the value: the value part of a return that attaches a metric is built from the same
+    definitions as the return that does not"""
+    from ..util import find_nodes
+    m = ctx.model
+    ctx.rule(rid, "Operator.apply with a want_metric branch: the returned value does not depend on the request - the expression "
+                  "under `.add_metric(...)` and the plain return are the same term and every name in it has the same set of "
+                  "reaching definitions (compared by normalised text, transitively) at both returns", floor=8)
+    fns = []
+    for mod in m.modules.values():
+        if not mod.name.startswith("nifty.cl."):
+            continue
+        for fi in mod.all_functions:
+            if fi.name != "apply" or fi.cls is None:
+                continue
+            has_wm = any(isinstance(n, ast.Attribute) and n.attr == "want_metric" for n in walk_no_nested(fi.node))
+            has_am = any(isinstance(n, ast.Call) and call_name(n) == "add_metric" for n in walk_no_nested(fi.node))
+            if has_wm and has_am:
+                fns.append(fi)
+    for fi in fns:
+        m.consulted.add(fi.module.relpath)
+        ctx.saw_func(fi)
+        cfg = cfg_of(fi)
+        rd = cfg.reaching_defs(params=fi.params())
+        key = f"{fi.key}::value independent of the metric request"
+        rets = [(n, x) for n, x in find_nodes(cfg, lambda x: isinstance(x, ast.Return)) if x.value is not None]
+        M, P = [], []
+        for n, r in rets:
+            v = r.value
+            if isinstance(v, ast.Call) and call_name(v) == "add_metric" and isinstance(v.func, ast.Attribute):
+                M.append((n, v.func.value))
+            else:
+                P.append((n, v))
+        if not M or not P:
+            ctx.und(rid, key, "metric attached outside a return expression - value/metric paths not separable", fi)
+            continue
+
+        def closure(nid, e, depth=4, seen=None):
+            """set of (name, normalised defining statement) reaching the names of e at node nid, transitively; None = unmodelled"""
+            out = set()
+            seen = set() if seen is None else seen
+            env = rd.get(nid) or {}
+            for x in ast.walk(e):
+                if not (isinstance(x, ast.Name) and isinstance(x.ctx, ast.Load)):
+                    continue
+                for d in sorted(env.get(x.id) or ()):
+                    if (x.id, d) in seen:
+                        continue
+                    seen.add((x.id, d))
+                    dn = cfg.nodes[d]
+                    if dn.kind == "entry" or dn.ast is None:
+                        out.add((x.id, "<param>"))
+                        continue
+                    if not isinstance(dn.ast, (ast.Assign, ast.AugAssign, ast.AnnAssign)):
+                        out.add((x.id, f"<{dn.kind}> {short(dn.ast)}"))
+                        continue
+                    out.add((x.id, src(dn.ast)))
+                    if depth > 0 and getattr(dn.ast, "value", None) is not None:
+                        out |= closure(d, dn.ast.value, depth - 1, seen)
+            return out
+
+        for n, v in M:
+            cm = closure(n.id, v)
+            cands = [(pn, pv) for pn, pv in P if src(pv) == src(v)]
+            if not cands:
+                # different spelling: compare after inlining unique definitions
+                from ..terms import inline_at
+                vi = src(inline_at(cfg, rd, n.id, v))
+                cands = [(pn, pv) for pn, pv in P if src(inline_at(cfg, rd, pn.id, pv)) == vi]
+                if not cands:
+                    ctx.und(rid, key + f" (line {n.lineno})", f"no plain return spells the value `{src(v)}`; plain returns: {[src(pv) for _, pv in P]}", fi, n.ast)
+                    continue
+            good = [pn for pn, pv in cands if closure(pn.id, pv) == cm]
+            if good:
+                ctx.ok(rid, key + f" [{src(v)}]", f"same definitions reach `{src(v)}` with and without the metric", fi, n.ast)
+            else:
+                pn, pv = cands[0]
+                diff = sorted(cm ^ closure(pn.id, pv))
+                ctx.bad(rid, key + f" [{src(v)}]", f"definitions reaching `{src(v)}` differ between the return with the metric (line {n.lineno}) and the plain "
+                        f"return (line {pn.lineno}): {[f'{a}: {b}' for a, b in diff][:4]}", fi, n.ast)
+
+
+_run_c03c = run
+
+
+def run(ctx):  # noqa: F811
+    _run_c03c(ctx)
+    r03_9(ctx)
+    # merged block-diagonal Jacobians keep the chain-rule order (shared with C01)
+    from .c01 import r01_7
+    r01_7(ctx, ctx.model, rid="R03.10")
+
+
+# ---------------------------------------------------------------------------------------------------------------- R03.11
+def r03_11(ctx, rid="R03.11"):
+    """conjugation parity of the inner product rule: a.vdot(b) = sum(conj(a)*b) is anti-linear in a"""
+    m = ctx.model
+    L = m.cls(LIN, "Linearization")
+    fi = L.methods.get("vdot")
+    ctx.rule(rid, "Linearization.vdot: value A.vdot(B) = sum(conj(A)*B); the Jacobian term through B's Jacobian is VdotOperator(A) "
+                  "(sum(conj(A)*J_B d)), the term through A's Jacobian is the conjugate of VdotOperator(B) (sum(B*conj(J_A d))) - "
+                  "conjugation parity of every term decided from the term structure", floor=2)
+    if fi is None:
+        ctx.und(rid, f"{L.key}::vdot", "method missing", L)
+        return
+    ctx.saw_func(fi)
+
+    def strip_conj(e):
+        n = 0
+        while isinstance(e, ast.Call) and isinstance(e.func, ast.Attribute) and e.func.attr in ("conjugate", "conj") and not e.args:
+            e = e.func.value
+            n += 1
+        return e, n % 2 == 1
+
+    def terms(e):
+        if isinstance(e, ast.BinOp) and isinstance(e.op, ast.Add):
+            return terms(e.left) + terms(e.right)
+        return [e]
+
+    def owner(e):
+        """'A' for the receiver, 'B' for the argument"""
+        t = src(e)
+        if t in ("self", "self._val", "self.val"):
+            return "A"
+        if t in (other, f"{other}._val", f"{other}.val"):
+            return "B"
+        return None
+    other = fi.params()[1]
+    for r in walk_no_nested(fi.node):
+        if not (isinstance(r, ast.Return) and isinstance(r.value, ast.Call) and src(r.value.func) == "self.new" and len(r.value.args) >= 2):
+            continue
+        val, jac = r.value.args[0], r.value.args[1]
+        if not (isinstance(val, ast.Call) and call_name(val) == "vdot" and isinstance(val.func, ast.Attribute) and len(val.args) == 1):
+            ctx.und(rid, f"{fi.key}::`{short(r, 50)}`", f"value `{src(val)}` is not X.vdot(Y)", fi, r)
+            continue
+        A, B = owner(val.func.value), owner(val.args[0])
+        if (A, B) != ("A", "B"):
+            ctx.und(rid, f"{fi.key}::`{short(r, 50)}`", f"value `{src(val)}`: operands not (receiver, argument)", fi, r)
+            continue
+        for t in terms(jac):
+            key = f"{fi.key}::`{short(val, 40)}`: parity of Jacobian term through "
+            core, oc = strip_conj(t)
+            if not (isinstance(core, ast.Call) and isinstance(core.func, ast.Call) and call_name(core.func) == "VdotOperator"
+                    and len(core.func.args) == 1 and len(core.args) == 1):
+                ctx.und(rid, key + f"`{short(t, 40)}`", "term is not [conj] VdotOperator(F)(J)", fi, r)
+                continue
+            F, fc = strip_conj(core.func.args[0])
+            J = src(core.args[0])
+            slot = "A" if J in ("self._jac", "self.jac") else "B" if J in (f"{other}._jac", f"{other}.jac") else None
+            if slot is None or owner(F) is None:
+                ctx.und(rid, key + f"`{J}`", f"`{src(t)}` not modelled", fi, r)
+                continue
+            key += f"{'the receiver' if slot == 'A' else 'the argument'}'s Jacobian"
+            # term = [oc] sum(conj([fc] F) * J d);  truth: slot B -> sum(conj(A) * J_B d);  slot A -> conj(sum(conj(B) * J_A d))
+            partner_ok = owner(F) == ("A" if slot == "B" else "B")
+            parity_ok = (not fc) and (oc == (slot == "A"))
+            ctx.check(rid, key, partner_ok and parity_ok,
+                      f"`{src(t)}` = {'conj ' if oc else ''}sum(conj({'conj ' if fc else ''}{src(F)}) * {J} d); the value is "
+                      f"{'anti-linear' if slot == 'A' else 'linear'} in this operand"
+                      + ("" if partner_ok else "; wrong partner field"), fi, r)
+
+
+_run_c03d = run
+
+
+def run(ctx):  # noqa: F811
+    _run_c03d(ctx)
+    r03_11(ctx)
+
+
+# ---------------------------------------------------------------------------------------------------------------- R03.12
+def r03_12(ctx, rid="R03.12"):
+    """chain-rule shape: the new Jacobian is an operator expression IN the old Jacobian, never the old Jacobian applied to a value"""
+    m = ctx.model
+    L = m.cls(LIN, "Linearization")
+    ctx.rule(rid, "Linearization methods: in every self.new(value, jacobian) the stored Jacobians (self._jac, other._jac) enter the new "
+                  "Jacobian as operators (composed, summed, scaled) - never applied to the value of a linearization (a Jacobian acts "
+                  "on directions of the input domain, the value lives on the target)", floor=10)
+    for name, fi in sorted(L.methods.items()):
+        params = fi.params()
+        for r in walk_no_nested(fi.node):
+            if not isinstance(r, ast.Return) or r.value is None:
+                continue
+            news = [c for c in ast.walk(r.value) if isinstance(c, ast.Call) and src(c.func) in ("self.new", "Linearization") and len(c.args) >= 2]
+            if not news:
+                continue
+            ctx.saw_func(fi)
+            cfg = cfg_of(fi)
+            rd = cfg.reaching_defs(params=params)
+            from ..terms import inline_at
+            from ..util import find_nodes
+            nid = [n for n, x in find_nodes(cfg, lambda x: x is r)]
+            for c in news:
+                jac = c.args[1]
+                if nid:
+                    jac = inline_at(cfg, rd, nid[0].id, jac, depth=3)
+                # local helper functions called in the Jacobian expression are searched too
+                roots = [jac]
+                for z in ast.walk(jac):
+                    if isinstance(z, ast.Call) and isinstance(z.func, ast.Name) and z.func.id in fi.nested:
+                        roots.append(fi.nested[z.func.id].node)
+                bad = []
+                uses = 0
+                for root in roots:
+                    for z in ast.walk(root):
+                        if isinstance(z, ast.Attribute) and z.attr in ("_jac", "jac"):
+                            uses += 1
+                        if isinstance(z, ast.Call) and isinstance(z.func, ast.Attribute) and z.func.attr in ("_jac", "jac") and len(z.args) == 1:
+                            a = src(z.args[0])
+                            if a.endswith("._val") or a.endswith(".val"):
+                                bad.append(src(z))
+                if not uses:
+                    continue
+                key = f"{fi.key}::`{short(c, 50)}`: Jacobians enter as operators"
+                ctx.check(rid, key, not bad, f"Jacobian applied to a value: {bad}" if bad else "", fi, r)
+
+
+_run_c03e = run
+
+
+def run(ctx):  # noqa: F811
+    _run_c03e(ctx)
+    r03_12(ctx)
+
+
+# ---------------------------------------------------------------------------------------------------------------- R03.13
+def r03_13(ctx, rid="R03.13"):
+    """contradicting beliefs about an optional argument: a helper that tests `p is None` must not have refused None before"""
+    from ..util import find_nodes, known_atoms
+    m = ctx.model
+    mod = m.module(PW)
+    ctx.rule(rid, "point-wise helpers (value+derivative path): a parameter the helper later tests against None (so None is an "
+                  "expected value, as for the plain numpy function) is not rejected by an earlier isinstance guard that no None "
+                  "can pass - otherwise linearized evaluation raises where plain evaluation returns", floor=2)
+    for fi in mod.all_functions:
+        cfg = None
+        for p in fi.params():
+            def is_none_test(x, p=p):
+                return isinstance(x, ast.Compare) and len(x.ops) == 1 and isinstance(x.ops[0], (ast.Is, ast.IsNot)) \
+                    and isinstance(x.left, ast.Name) and x.left.id == p and isinstance(x.comparators[0], ast.Constant) \
+                    and x.comparators[0].value is None
+            if not any(is_none_test(x) for x in walk_no_nested(fi.node)):
+                continue
+            cfg = cfg or cfg_of(fi)
+            ctx.saw_func(fi)
+            for n, x in find_nodes(cfg, is_none_test):
+                key = f"{fi.key}::`{src(x)}` (line {n.lineno}) reachable with {p}=None"
+                dead = None
+                for t, pol in known_atoms(cfg, n.id):
+                    # generator/all(...) forms that mention `is None` are accepted as None-aware
+                    if any(isinstance(z, ast.Compare) and isinstance(z.ops[0], (ast.Is, ast.IsNot)) and isinstance(z.comparators[0], ast.Constant)
+                           and z.comparators[0].value is None for z in ast.walk(t)):
+                        continue
+                    if pol and isinstance(t, ast.Call) and call_name(t) == "isinstance" and len(t.args) == 2 and src(t.args[0]) == p \
+                            and "None" not in src(t.args[1]):
+                        dead = src(t)
+                ctx.check(rid, key, dead is None, f"every path to this test has passed `{dead}`, which None cannot satisfy" if dead else "", fi, x)
+
+
+_run_c03f = run
+
+
+def run(ctx):  # noqa: F811
+    _run_c03f(ctx)
+    r03_13(ctx)
